@@ -2,6 +2,8 @@ SPECIFICATION TSpec
 CONSTANTS KA = {"none"}
           KB = {"none"}
           KC = {"raw1"}
+          RK = {"dir"}
+          SK = {"dir"}
 INVARIANTS DagWellFormed AllBlocksVerify OnlyFromDag DupsOnlyIfRequested RootIsTerminal Sufficient RawExact
 CONSTRAINT TraceConstraint
 POSTCONDITION TracePost
